@@ -1099,6 +1099,17 @@ def corpus():
                     "s": ["select", _sel([xs, ys], where=["t", ys], groupby=[xs], having=["t", ys], orderby=[[xs, False]])]})
         out.append({"kind": "stmt", "dialect": "sqlite", "sty": sty, "share": True,
                     "s": ["select", _sel([["case", [[ys, Sv("big")]], Sv("small"), None]], where=["t", ys])]})
+        # operand evaluation order (regression fbde87c..b4f5fc0: the right operand was rendered, and collected, first) and the
+        # sign-protecting parentheses ("a"-(-1) inline, "a"-? parameterised; -(-1) / -?; "a"-(-1*"b") / "a"-?*"b")
+        out.append({"kind": "term", "c": sc, "sty": sty,
+                    "t": ["arith", "sub", ["arith", "add", I(1), F("a"), None], I(2), None]})
+        out.append({"kind": "stmt", "dialect": "sqlite", "sty": sty,
+                    "s": ["select", _sel([["arith", "sub", ["arith", "add", I(1), F("a"), None], I(2), None]],
+                                         where=["t", ["basic", "gt", ["arith", "mul", I(3), F("b"), None], ["arith", "sub", I(10), I(4), None], None]])]})
+        out.append({"kind": "term", "c": sc, "sty": sty, "t": ["arith", "sub", F("a"), I(-1), None]})
+        out.append({"kind": "term", "c": sc, "sty": sty, "t": ["neg", I(-1)]})
+        out.append({"kind": "term", "c": sc, "sty": sty, "t": ["arith", "sub", F("a"), ["arith", "mul", I(-1), F("b"), None], None]})
+        out.append({"kind": "term", "c": sc, "sty": sty, "t": ["arith", "sub", F("a"), ["valf", "-2.25", None], None]})
         # ORDER BY of a set operation repeating a result column that contains a literal
         e1 = ["arith", "add", F("a"), I(1), None]
         out.append({"kind": "stmt", "dialect": "sqlite", "sty": sty,
@@ -1544,6 +1555,11 @@ def exec_differs(case, sty, text, toks, params, inline):
     try:
         r2 = db2.execute(ptext, pvals).fetchall()
     except (sqlite3.Error, OverflowError) as e:
+        if str(e).startswith(("ambiguous column name", "no such column", "no such table")):
+            # name resolution depends on identifiers only, and those are token-identical in both texts (checked above):
+            # SQLite prunes `x AND 0` / `x OR 1` with literal constants at parse time, before resolving the names in x,
+            # so only the inline text gets away with an unresolvable name.  Not a property of the rendering: not judged.
+            return None
         return "inline text executes, (text, parameters) fails: %s" % e
     d2 = _dump(db2)
     sel = case["s"][0] in ("select", "setop")
